@@ -88,3 +88,8 @@ pub fn lexa_str_lines<'a>(source: &'a str) -> (r: Vec<&'a str>)
 pub fn lexa_str_len(s: &str) -> (r: usize)
 	ensures r == encode_utf8(s@).len(), (r == 0) == (s@.len() == 0),
 { s.len() }
+
+// Option::map_or (not called by the pinned lexer; present so that a refactoring that uses it is still decided)
+pub assume_specification<T, U, F: core::ops::FnOnce(T) -> U>[ core::option::Option::<T>::map_or ](o: Option<T>, d: U, f: F) -> (r: U)
+	requires o.is_some() ==> f.requires((o.unwrap(),)),
+	ensures o.is_none() ==> r == d, o.is_some() ==> f.ensures((o.unwrap(),), r);
